@@ -7,7 +7,7 @@ import random
 
 LEVEL = "model_checking"
 RULE = ("transitions = (registry before, call, outcome, registry after, get_metric at every slot) of the real Grid, "
-        "explored breadth-first: every call (1-2 variables at pairwise different positions, overwrite on/off, 2 keys, "
+        "explored breadth-first: every call (1-3 variables at pairwise different positions, or two variables of one slot, overwrite on/off, 2 keys, "
         "2 candidate variables per slot; first call also via the constructor) from every registry state reachable in "
         "<= 3 (quick) / 4 (thorough) calls; non-trivial = distinct (state, call) pairs")
 
@@ -32,6 +32,8 @@ def calls():
     for k in KEYS:
         vs = [v for v in POOL if POOL[v][0] == k]
         lists = [[v] for v in vs] + [[v, w] for v in vs for w in vs if POOL[v][1] != POOL[w][1]]
+        # two variables of ONE slot in one call (or the same variable twice): one at a time, the second meets an occupied slot
+        lists += [[v, w] for v in vs for w in vs if POOL[v][1] == POOL[w][1]]
         lists += [[u, v, w] for u in vs for v in vs for w in vs if len({POOL[u][1], POOL[v][1], POOL[w][1]}) == 3]
         for l in lists:
             for ow in (False, True):
@@ -186,9 +188,51 @@ def state_key(proj):
     return tuple((k, tuple(vs)) for k, vs in proj)
 
 
+KNOWN_FRESH_KEY = "fresh-key-list-naming-one-slot-twice-registers-both"
+
+
+def _legacy_fresh_key(reg, call):
+    """what the pinned set_metrics does with a list given for an axis set that has no entry yet: every variable is
+    appended, occupied slot or not (the known finding); None when the call is not of that kind"""
+    if reg.get(call["k"]) or len({POOL[v][1] for v in call["vs"]}) == len(call["vs"]):
+        return None
+    return dict(reg, **{call["k"]: list(call["vs"])})
+
+
 def classify(rec, clauses):
     cl = "+".join(sorted(set(clauses)))
+    try:
+        if rec["out"]["k"] == "ok" and set(clauses) <= {"accepted-into-occupied-slot", "two-variables-in-one-slot"}:
+            if rec["ev"] == "SetMetrics" and not rec["call"].get("ctor"):
+                legacy = _legacy_fresh_key({k: vs for k, vs in rec["pre"]}, rec["call"])
+                if legacy is not None and {k: vs for k, vs in rec["post"]} == {k: vs for k, vs in legacy.items() if vs}:
+                    return KNOWN_FRESH_KEY
+            if rec["ev"] == "CtorBatch":
+                # the constructor registers entry after entry: the first entry of an axis set meets no entry yet
+                reg, hit = {}, False
+                for c in rec["calls"]:
+                    legacy = _legacy_fresh_key(reg, c)
+                    if legacy is not None:
+                        reg, hit = legacy, True
+                    else:
+                        reg = _spec_step(reg, c)
+                        if reg is None:
+                            return f"setmetrics-{cl}"
+                if hit and {k: vs for k, vs in rec["post"]} == {k: vs for k, vs in reg.items() if vs}:
+                    return KNOWN_FRESH_KEY
+    except Exception:
+        pass
     return f"setmetrics-{cl}"
+
+
+def _spec_step(reg, call, ow=False):
+    """Metrics.tla's SetMetricsSpec for one call without overwrite, on {key: [variables]}; None when refused"""
+    lst = list(reg.get(call["k"], []))
+    for v in call["vs"]:
+        if any(POOL[x][1] == POOL[v][1] for x in lst):
+            return None
+        lst.append(v)
+    return dict(reg, **{call["k"]: lst})
 
 
 def apalache_inductive(ctx):
@@ -239,7 +283,9 @@ def run(ctx):
         for st, hist in frontier.items():
             for c in allcalls:
                 jobs.append((hist, dict(c)))
-                if d == 0:
+                # through the constructor (which has no overwrite option and, when refused, leaves no Grid to look at):
+                # lists naming one slot twice go to the CtorBatch records below instead
+                if d == 0 and len({POOL[v][1] for v in c["vs"]}) == len(c["vs"]):
                     jobs.append((hist, dict(c, ctor=True)))
             for c in ILL_CALLS:
                 jobs.append((hist, dict(c)))
@@ -253,16 +299,22 @@ def run(ctx):
             if sum(1 for r in part if r["out"]["k"] == "error") > 10:
                 jobs = jobs[:len(results)]
                 break
-        new = {}
+        level = []
         for (hist, c), r in zip(jobs, results):
             cid += 1
             r.update({"id": cid, "ev": "SetMetricsIll" if c.get("ill") else "SetMetrics", "pool": pool_list, "history_len": len(hist) + 1,
                       "history": hist + [c]})
             recs.append(r)
+            level.append(r)
+        # a state reached through a transition the specification rejects is not a state of the model: it is reported
+        # (below) and not explored from; a level that is mostly rejected ends the exploration
+        bad_level = ctx.validate("C16Trace", level, jvms=8, chunk=2500) if level else {}
+        new = {}
+        for r in level:
             sk = state_key(r["post"])
-            if sk not in seen and r["out"]["k"] != "error":
-                seen[sk] = hist + [c]
-                new[sk] = hist + [c]
+            if sk not in seen and r["out"]["k"] != "error" and r["id"] not in bad_level:
+                seen[sk] = r["history"]
+                new[sk] = r["history"]
         frontier = new
         cap = 1500 if thorough else (10 if d == depth - 2 else 30)
         if len(frontier) > cap:
@@ -272,9 +324,7 @@ def run(ctx):
             random.Random(ctx.seed + d).shuffle(keys)
             frontier = {k: frontier[k] for k in keys[:cap]}
             truncated = True
-        # a transition the specification rejects ends the exploration: states behind it are not states of the model
-        level = [r for r in recs if r["history_len"] == d + 1]
-        if level and ctx.validate("C16Trace", level, jvms=8, chunk=2500):
+        if len(bad_level) * 4 > len(level):
             stopped_at = d + 1
             break
     # constructors with two or three `metrics=` entries (at most two spellings per axis set)
@@ -285,6 +335,7 @@ def run(ctx):
         b = [dict(rngc.choice(noow)) for _ in range(rngc.choice([2, 2, 3]))]
         if all(sum(1 for c in b if c["k"] == k) <= 2 for k in KEYS):
             batches.append(b)
+    batches += [[dict(c)] for c in noow if len({POOL[v][1] for v in c["vs"]}) < len(c["vs"])]
     for r in ctx.pmap(run_ctor_batch, batches, chunksize=10, limit=10.0):
         cid += 1
         r.update({"id": cid, "ev": "CtorBatch", "pool": pool_list, "history_len": 0, "call": {"k": "-", "vs": [], "ow": False, "ctor": True},
